@@ -282,6 +282,9 @@ def check_must_raise(ctx, repo, qual=NEW):
         ("negative grade", rep_algebra(3), {"values": [Val("A")], "grades": (-1,)}),
         ("incomplete grade in graded mode", rep_algebra(3, graded=True), {"keys": (1, 2), "values": [Val("A"), Val("B")]}),
         ("permuted grade in graded mode", rep_algebra(3, graded=True), {"keys": (2, 1, 4), "values": [Val("A"), Val("B"), Val("C")]}),
+        ("incomplete grade in graded mode, as a mapping", rep_algebra(3, graded=True), {"values": {"e1": Val("A"), "e2": Val("B")}}),
+        ("incomplete grade in graded mode, as a mapping with int keys", rep_algebra(3, graded=True), {"values": {1: Val("A")}}),
+        ("permuted grade in graded mode, as a mapping", rep_algebra(3, graded=True), {"values": {2: Val("B"), 1: Val("A"), 4: Val("C")}}),
     ]
     for label, alg, kw in cells:
         c = f"{qual}#must-raise:{label}"
@@ -319,7 +322,7 @@ def check_must_raise(ctx, repo, qual=NEW):
                              f"documented as mutually exclusive, so the call must raise (or keep every supplied coefficient)", fn, result=got)
 
 
-@rule("C15.must-raise", props=["C15", "C13"], min_instances=12, mutants=[
+@rule("C15.must-raise", props=["C15", "C13"], min_instances=15, mutants=[
     ("keyword blades next to values are ignored", ("multivector", "        if items and (keys is not None or values is not None):\n            raise ValueError(\"Keyword blades cannot be combined with `values` or `keys`.\")\n", "")),
     ("graded check dropped", ("multivector", "if algebra.graded and keys and keys != algebra.indices_for_grades[grades]:", "if False and keys != algebra.indices_for_grades[grades]:")),
     ("graded check compares key sets", ("multivector", "if algebra.graded and keys and keys != algebra.indices_for_grades[grades]:", "if algebra.graded and keys and set(keys) != set(algebra.indices_for_grades[grades]):")),
@@ -346,6 +349,8 @@ def check_input_forms(ctx, repo, qual=NEW):
         ("two grades value list", rep_algebra(2), ([Val(A), Val(B)],), {"grades": (0, 2)}, {0: A, 3: B}),
         ("keys + values + matching grades", rep_algebra(3), (), {"keys": (2, 1), "values": [Val(A), Val(B)], "grades": (1,)}, {2: A, 1: B}),
         ("graded mode, complete grade", rep_algebra(2, graded=True), (), {"keys": (1, 2), "values": [Val(A), Val(B)]}, {1: A, 2: B}),
+        ("graded mode, complete grade as a mapping", rep_algebra(2, graded=True), ({"e1": Val(A), "e2": Val(B)},), {}, {1: A, 2: B}),
+        ("graded mode, complete grades as a mapping with int keys", rep_algebra(2, graded=True), ({0: Val(C), 1: Val(A), 2: Val(B)},), {}, {0: C, 1: A, 2: B}),
     ]
     for label, alg, args, kw, want in cells:
         c = f"{qual}#form:{label}"
